@@ -8,6 +8,8 @@ discipline named by its position in the listing; `edge ds i j` is an edge of
 `DependencyGraph.__create_graph`.
 -/
 import GemseoVerif.Lemmas.C08Scc
+import GemseoVerif.Lemmas.C08Coupling
+import GemseoVerif.Lemmas.C08Chain
 
 namespace GV.C08
 
@@ -146,6 +148,172 @@ theorem peeling_terminates_on_dag (ds : List Disc) (fuel : Nat) :
   exact peel_complete (rankOf adj ds.length) fuel _
     (fun a ha b hb hab => cedge_rank (isMutual_edge ds) ha hb hab) hf
 
+/-! ### Coupling sets (`couplings_spec`) -/
+
+theorem groupsOk_sequence (ds : List Disc) :
+    GroupsOk (mutualR (edge ds) ds.length) ds.length (sequence ds) := by
+  rw [sequence_eq]
+  exact groupsOk_sequenceOf (isMutual_edge ds)
+
+/-- `strong_couplings` is the strictly increasing list of the names exchanged between two
+    mutually dependent disciplines or fed back by a discipline to itself (the labels of the
+    edges and self-loops lying on a cycle of the graph). -/
+theorem strong_couplings_spec (ds : List Disc) :
+    (strongCouplings ds (sequence ds)).Pairwise (· < ·) ∧
+    ∀ v, v ∈ strongCouplings ds (sequence ds) ↔
+      ∃ i j, i < ds.length ∧ j < ds.length ∧ MutuallyDependent ds i j ∧
+        v ∈ outputsAt ds i ∧ v ∈ inputsAt ds j := by
+  refine ⟨sorted_sortDedup _, fun v => ?_⟩
+  rw [mem_strongCouplings (groupsOk_sequence ds)]
+  constructor
+  · rintro ⟨i, j, hij, hvi, hvj⟩
+    obtain ⟨hi, hj, hm⟩ := (mutualR_iff_mutuallyDependent ds i j).1 hij
+    exact ⟨i, j, hi, hj, hm, hvi, hvj⟩
+  · rintro ⟨i, j, hi, hj, hm, hvi, hvj⟩
+    exact ⟨i, j, (mutualR_iff_mutuallyDependent ds i j).2 ⟨hi, hj, hm⟩, hvi, hvj⟩
+
+/-- `strongly_coupled_disciplines` are exactly the disciplines on a cycle: mutually dependent
+    with another discipline, or self-coupled. -/
+theorem strongly_coupled_spec (ds : List Disc) (i : Nat) :
+    i ∈ stronglyCoupled ds (sequence ds) true ↔
+      i < ds.length ∧ ((∃ j, j ≠ i ∧ j < ds.length ∧ MutuallyDependent ds i j) ∨
+        selfCoupledAt ds i = true) := by
+  rw [mem_stronglyCoupled (groupsOk_sequence ds)]
+  constructor
+  · rintro ⟨hi, h | h⟩
+    · obtain ⟨j, hji, hij⟩ := h
+      obtain ⟨_, hj, hm⟩ := (mutualR_iff_mutuallyDependent ds i j).1 hij
+      exact ⟨hi, Or.inl ⟨j, hji, hj, hm⟩⟩
+    · exact ⟨hi, Or.inr h⟩
+  · rintro ⟨hi, h | h⟩
+    · obtain ⟨j, hji, hj, hm⟩ := h
+      exact ⟨hi, Or.inl ⟨j, hji, (mutualR_iff_mutuallyDependent ds i j).2 ⟨hi, hj, hm⟩⟩⟩
+    · exact ⟨hi, Or.inr h⟩
+
+/-- Every discipline is either strongly or weakly coupled, never both. -/
+theorem weakly_coupled_iff_not_strongly (ds : List Disc) (i : Nat) :
+    i ∈ weaklyCoupled ds (sequence ds) ↔
+      i < ds.length ∧ i ∉ stronglyCoupled ds (sequence ds) true := by
+  rw [mem_weaklyCoupled (groupsOk_sequence ds), mem_stronglyCoupled (groupsOk_sequence ds)]
+  constructor
+  · rintro ⟨hi, honly, hsc⟩
+    refine ⟨hi, ?_⟩
+    rintro ⟨_, ⟨j, hji, hij⟩ | h⟩
+    · exact hji (honly j hij)
+    · rw [hsc] at h; simp at h
+  · rintro ⟨hi, hnot⟩
+    refine ⟨hi, ?_, ?_⟩
+    · intro j hij
+      by_contra hji
+      exact hnot ⟨hi, Or.inl ⟨j, hji, hij⟩⟩
+    · by_contra hsc
+      exact hnot ⟨hi, Or.inr (by simpa using hsc)⟩
+
+/-- `weak_couplings` is the strictly increasing list of the outputs of the disciplines that are
+    on no cycle of the graph. -/
+theorem weak_couplings_spec (ds : List Disc) :
+    (weakCouplings ds (sequence ds)).Pairwise (· < ·) ∧
+    ∀ v, v ∈ weakCouplings ds (sequence ds) ↔
+      ∃ i, i < ds.length ∧ i ∉ stronglyCoupled ds (sequence ds) true ∧ v ∈ outputsAt ds i := by
+  refine ⟨sorted_sortDedup _, fun v => ?_⟩
+  unfold weakCouplings
+  rw [mem_sortDedup]
+  simp only [List.mem_flatMap, weakly_coupled_iff_not_strongly]
+  constructor
+  · rintro ⟨i, ⟨h1, h2⟩, hv⟩; exact ⟨i, h1, h2, hv⟩
+  · rintro ⟨i, h1, h2, hv⟩; exact ⟨i, ⟨h1, h2⟩, hv⟩
+
+/-- `all_couplings` is the strictly increasing list of the names that are an output of a
+    discipline and an input of a discipline (all edge and self-loop labels of the graph). -/
+theorem all_couplings_spec (ds : List Disc) :
+    (allCouplings ds).Pairwise (· < ·) ∧
+    ∀ v, v ∈ allCouplings ds ↔ ∃ a ∈ ds, ∃ b ∈ ds, v ∈ a.outputs ∧ v ∈ b.inputs :=
+  ⟨sorted_sortDedup _, fun _ => mem_allCouplings⟩
+
+/-- Every strong coupling is a coupling. -/
+theorem strong_subset_all (ds : List Disc) (v : String)
+    (hv : v ∈ strongCouplings ds (sequence ds)) : v ∈ allCouplings ds := by
+  obtain ⟨i, j, _, _, _, hvi, hvj⟩ := ((strong_couplings_spec ds).2 v).1 hv
+  rw [mem_allCouplings]
+  unfold outputsAt at hvi
+  unfold inputsAt at hvj
+  split at hvi
+  · rename_i a ha
+    split at hvj
+    · rename_i b hb
+      exact ⟨a, List.mem_of_getElem? ha, b, List.mem_of_getElem? hb, hvi, hvj⟩
+    · simp at hvj
+  · simp at hvi
+
+/-! ### Composition is exact (`chain_equals_monolithic`) -/
+
+/-- The flattened execution sequence is a topological order of the groups: no discipline of a
+    group feeds a discipline of a group executed before it, and the groups are pairwise
+    disjoint. This is what makes sequential execution of the sequence legitimate. -/
+theorem sequence_is_topological (ds : List Disc) :
+    (sequence ds).flatten.Pairwise
+      (fun b c => (∀ j ∈ b, ∀ i ∈ c, ¬ DepEdge ds i j) ∧ ∀ i ∈ b, i ∉ c) := by
+  have h1 := sequenceOf_topological (isMutual_edge ds)
+  have h2 : (sequence ds).flatten.Pairwise List.Disjoint :=
+    (List.nodup_flatten.1 ((each_once ds).nodup_iff.2 List.nodup_range)).2
+  rw [← sequence_eq] at h1
+  refine (h1.and h2).imp ?_
+  rintro b c ⟨hadj, hdisj⟩
+  refine ⟨fun j hj i hi hdep => ?_, fun i hib hic => hdisj hib hic⟩
+  have := hadj j hj i hi
+  rw [(edge_iff ds i j).2 hdep] at this
+  simp at this
+
+/-- Blocks attached to the groups of the sequence (a discipline, or the inner MDA of a group),
+    executed in the order of the sequence, form a valid schedule: no block writes a name that an
+    earlier block reads or writes — provided each output is computed by one discipline only
+    (`check_disciplines_consistency`) and a block reads/writes only names of its members. -/
+theorem sequence_schedule_valid (ds : List Disc) (spec : List Nat → BlockSpec)
+    (hcons : ∀ i j v, i ≠ j → v ∈ outputsAt ds i → v ∉ outputsAt ds j)
+    (hw : ∀ g k, k ∈ (spec g).writes → ∃ i ∈ g, k ∈ outputsAt ds i)
+    (he : ∀ g k, k ∈ (spec g).ext → ∃ i ∈ g, k ∈ inputsAt ds i) :
+    ((sequence ds).flatten.map spec).Pairwise NoBackWrite := by
+  rw [List.pairwise_map]
+  refine (sequence_is_topological ds).imp ?_
+  rintro b c ⟨htopo, hdisj⟩ k hkc hkb
+  obtain ⟨i, hic, hki⟩ := hw c k hkc
+  rcases List.mem_append.1 hkb with hkb | hkb
+  · obtain ⟨j, hjb, hkj⟩ := he b k hkb
+    have hij : i ≠ j := fun e => hdisj j hjb (e ▸ hic)
+    apply htopo j hjb i hic
+    unfold outputsAt at hki
+    unfold inputsAt at hkj
+    split at hki
+    · rename_i a ha
+      split at hkj
+      · rename_i b' hb'
+        exact ⟨a, b', ha, hb', hij, k, hki, hkj⟩
+      · simp at hkj
+    · simp at hki
+  · obtain ⟨j, hjb, hkj⟩ := hw b k hkb
+    have hij : i ≠ j := fun e => hdisj j hjb (e ▸ hic)
+    exact hcons i j k hij hki hkj
+
+/-- `chain_equals_monolithic`: executing the blocks of a valid schedule one after the other
+    (`MDOChain._execute`) returns data in which the equations of *all* blocks hold at once, and
+    this data is the only one with that property that agrees with the input data on the names
+    no block computes — i.e. the chain returns the same data as evaluating the whole system at
+    once. (Acyclic case: a block is a discipline and its equation is `out = f(inputs)`; cyclic
+    case: a block is a group and its equations are those of its inner MDA.) -/
+theorem chain_equals_monolithic (bs : List BlockSpec) (e : Env)
+    (hvalid : bs.Pairwise NoBackWrite)
+    (hpre : ∀ pre b post, bs = pre ++ b :: post → b.Pre (chainEval (pre.map (·.run)) e))
+    (hself : ∀ b ∈ bs, ∀ k ∈ b.ext, k ∉ b.writes) :
+    (∀ b ∈ bs, b.Sat (chainEval (bs.map (·.run)) e)) ∧
+    ∀ e' : Env, (∀ b ∈ bs, b.Sat e') → (∀ k, (∀ b ∈ bs, k ∉ b.writes) → e' k = e k) →
+      ∀ k, e' k = chainEval (bs.map (·.run)) e k := by
+  have hsat := chain_satisfies_all bs e hvalid hpre
+  refine ⟨hsat, fun e' hsat' hsame => ?_⟩
+  apply chain_unique bs e e' hsat hsat' hsame ?_ hself
+  refine hvalid.imp ?_
+  intro b c hbc k hkb hkc
+  exact hbc k hkc (List.mem_append_left _ hkb)
+
 /-! ### Non-vacuity: a five-discipline example with a cycle, a self-loop and an isolated discipline -/
 
 /-- `A: x ↦ a`, `B: a,c ↦ b`, `C: b ↦ c`, `D: c,d ↦ d`, `E` without data. -/
@@ -160,5 +328,11 @@ example : DepEdge exampleDiscs 0 1 := (edge_iff exampleDiscs 0 1).1 (by decide +
 example : ([0] : List Nat) ≠ [1, 2] := by decide
 -- B and C are mutually dependent
 example : mutualR (edge exampleDiscs) exampleDiscs.length 1 2 = true := by decide +kernel
+-- the coupling sets of the example: b, c inside the cycle, d fed back by D, a from the acyclic part
+example : strongCouplings exampleDiscs (sequence exampleDiscs) = ["b", "c", "d"] := by decide +kernel
+example : weakCouplings exampleDiscs (sequence exampleDiscs) = ["a"] := by decide +kernel
+example : allCouplings exampleDiscs = ["a", "b", "c", "d"] := by decide +kernel
+example : stronglyCoupled exampleDiscs (sequence exampleDiscs) true = [1, 2, 3] := by decide +kernel
+example : weaklyCoupled exampleDiscs (sequence exampleDiscs) = [0, 4] := by decide +kernel
 
 end GV.C08
